@@ -350,3 +350,28 @@ def proof_stage(run: Run, propfile, module, theorems, extra_targets=()):
     run.cov["trusted_base"] = list(TRUSTED_BASE_COMMON)
     run.broken = broken
     return ok_all
+
+
+# ----------------------------------------------------------------------------------------------
+# evaluating lists of Coq expressions (statement-only case files: no model term involved)
+
+def coq_eval(run, name, header, exprs, shard=300, timeout=1200):
+    """exprs: Coq terms of type N (each 0..60).  Returns (values, errors): values[i] is an int or None."""
+    shards, index = [], []
+    for s in range(0, len(exprs), shard):
+        chunk = exprs[s:s + shard]
+        text = header + "\nDefinition cases : list N := [\n" + ";\n".join(chunk) + '\n].\nGoal True. idtac "@@CODES". Abort.\nEval vm_compute in (codes cases).\n'
+        shards.append(("%s_%04d" % (name, len(shards)), text))
+        index.append(list(range(s, s + len(chunk))))
+    res = run_shards(run.workdir, shards, timeout=timeout)
+    vals = [None] * len(exprs)
+    errors = []
+    for (nm, _), idxs in zip(shards, index):
+        rc, out = res[nm]
+        codes = parse_codes(out) if rc == 0 else None
+        if codes is None or len(codes) != len(idxs):
+            errors.append("%s: rc=%s %s" % (nm, rc, out[-500:]))
+            continue
+        for i, c in zip(idxs, codes):
+            vals[i] = ord(c) - 48
+    return vals, errors
